@@ -94,6 +94,146 @@ func c04qRcmgr(t *testing.T, connsInbound int) network.ResourceManager {
 	return rm
 }
 
+// c04qHolePunchRace: transport A is hole punching towards B (server role of a simultaneous
+// connect) and gives up (context cancelled) at the very moment at which B's connection is accepted
+// by A's listener and handed to the attempt.  The interleaving is forced with A's own mutexes:
+// holePunch is parked on rndMx after registering the attempt; the accept loop is parked on
+// holePunchingMx after wrapping B's conn (scope opened); then both proceed, the accept loop first.
+// Whatever the order, B's connection must come out of the Dial or of Accept, so that it can be
+// closed and its scope released.
+func c04qHolePunchRace(t *testing.T, out *verifh.Out, mk func() (peer.ID, ic.PrivKey)) {
+	rm := c04qRcmgr(t, -1)
+	defer rm.Close()
+	idA, keyA := mk()
+	idB, keyB := mk()
+	newCM := func() *quicreuse.ConnManager {
+		cm, err := quicreuse.NewConnManager(quic.StatelessResetKey{}, quic.TokenGeneratorKey{})
+		if err != nil {
+			t.Fatal(err)
+		}
+		return cm
+	}
+	cmA, cmB := newCM(), newCM()
+	defer cmA.Close()
+	defer cmB.Close()
+	laddr := ma.StringCast("/ip4/127.0.0.1/udp/0/quic-v1")
+	trA, err := NewTransport(keyA, cmA, nil, nil, rm)
+	if err != nil {
+		t.Fatal(err)
+	}
+	tA := trA.(*transport)
+	lnA, err := trA.Listen(laddr)
+	if err != nil {
+		t.Fatal(err)
+	}
+	acceptedA := make(chan tpt.CapableConn, 4)
+	doneA := make(chan struct{})
+	go func() {
+		defer close(doneA)
+		for {
+			c, err := lnA.Accept()
+			if err != nil {
+				return
+			}
+			acceptedA <- c
+		}
+	}()
+	trB, err := NewTransport(keyB, cmB, nil, nil, nil)
+	if err != nil {
+		t.Fatal(err)
+	}
+	lnB, err := trB.Listen(laddr)
+	if err != nil {
+		t.Fatal(err)
+	}
+	doneB := make(chan struct{})
+	go func() {
+		defer close(doneB)
+		for {
+			c, err := lnB.Accept()
+			if err != nil {
+				return
+			}
+			c.Close()
+		}
+	}()
+	b0 := c04qUsage(rm)
+	tA.rndMx.Lock()
+	hpCtx, hpCancel := context.WithCancel(context.Background())
+	defer hpCancel()
+	type dialRes struct {
+		c   tpt.CapableConn
+		err error
+	}
+	hpRes := make(chan dialRes, 1)
+	go func() {
+		c, err := trA.Dial(network.WithSimultaneousConnect(hpCtx, false, ""), lnB.Multiaddr(), idB)
+		hpRes <- dialRes{c, err}
+	}()
+	registered := c04qWait(5*time.Second, func() bool {
+		tA.holePunchingMx.Lock()
+		defer tA.holePunchingMx.Unlock()
+		return len(tA.holePunching) == 1
+	})
+	hpCancel()
+	tA.holePunchingMx.Lock()
+	dialCtx, dialCancel := context.WithTimeout(context.Background(), 10*time.Second)
+	defer dialCancel()
+	connB, derr := trB.Dial(network.WithSimultaneousConnect(dialCtx, true, ""), lnA.Multiaddr(), idA)
+	wrapped := c04qWait(5*time.Second, func() bool { return c04qUsage(rm).conns-b0.conns >= 1 })
+	time.Sleep(200 * time.Millisecond)
+	tA.rndMx.Unlock()
+	time.Sleep(300 * time.Millisecond)
+	tA.holePunchingMx.Unlock()
+	var got []tpt.CapableConn
+	select {
+	case r := <-hpRes:
+		if r.err == nil && r.c != nil {
+			got = append(got, r.c)
+		}
+	case <-time.After(10 * time.Second):
+		out.Cover("quic.holepunch_dial_did_not_return")
+	}
+	select {
+	case c := <-acceptedA:
+		got = append(got, c)
+	case <-time.After(500 * time.Millisecond):
+	}
+	for _, c := range got {
+		c.Close()
+	}
+	if connB != nil {
+		connB.Close()
+	}
+	lnA.Close()
+	lnB.Close()
+	<-doneA
+	<-doneB
+	if c, ok := trA.(io.Closer); ok {
+		c.Close()
+	}
+	if c, ok := trB.(io.Closer); ok {
+		c.Close()
+	}
+	var d c04qu
+	c04qWait(4*time.Second, func() bool {
+		u := c04qUsage(rm)
+		d = c04qu{u.conns - b0.conns, u.fd - b0.fd, u.mem - b0.mem}
+		return d == c04qu{}
+	})
+	if !registered || !wrapped || derr != nil {
+		// the forced interleaving did not take place: nothing to judge
+		out.Cover("quic.holepunch_race_not_reached")
+		return
+	}
+	lost := int64(1)
+	if len(got) == 0 {
+		lost = 0 // the connection came out nowhere: nobody could close it
+	}
+	out.Case([]int64{7, 1, 306, 0, 1, lost, 2, d.conns, d.fd, d.mem, 0, 0})
+	out.Cover("quic.holepunch_giveup_races_with_accept")
+}
+
 func TestVerifC04Quic(t *testing.T) {
 	out, err := verifh.Open()
 	if err != nil {
@@ -116,6 +256,7 @@ func TestVerifC04Quic(t *testing.T) {
 		rounds = 12
 	}
 	for round := 0; round < rounds; round++ {
+		c04qHolePunchRace(t, out, mk)
 		for sc := int64(0); sc <= 5; sc++ {
 			serverID, serverKey := mk()
 			_, clientKey := mk()
